@@ -108,6 +108,19 @@ B_METAS += [{'op': 'modify', 'path': 'src\\lib\\', 'revision': {'new': 'def',
                                                              'old': 'abc'}},
             {'a': 'q"uote', 'b': 'c:\\dir\\', 'bb': '\\\\', 'c': '\\"',
              'd': 'x\ny\tz', 'e': '\u2028\x7f\x00', 'end\\': 'z'}]
+# strings (values and keys) holding every phrase one of the lexer's own rules
+# looks for (none contains '#.', which the statement excludes): inside a
+# JSON string they are string characters, nothing else
+_PHRASES = ['Work in progress...', '...', '.../x', 'abc123...def456', '..',
+            '#diffx: version=1.0', '#change:', '# .x', '.#',
+            '@@ -1 +1 @@', '--- a', '+++ b', '+x', '-y', '```', '~~~',
+            'a=b, c=d', 'length=5', 'delta 14', 'literal 5',
+            'diff --git a b', 'index 1..2', 'Binary files differ', '=' * 67,
+            '# heading', '* item', '<!-- c -->', '/* c */', '// c', '{}', '[]',
+            ':', ',']
+B_METAS += [dict(('k%02d' % i, ph) for i, ph in enumerate(_PHRASES)),
+            dict((ph, i) for i, ph in enumerate(_PHRASES)),
+            {'l': list(_PHRASES)}]
 B_DIFFS = [b'a\n', b'--- a\n+++ b\n@@ -1 +1,2 @@\n-x\n+y\n+z\n',
            b'delta 14\nxyz\n', b'literal 5\nabc\n', b'...\n', b'a\r\nb\r\n',
            b'Binary files differ\n', 'é\n'.encode('utf-8'), b'#x\n',
